@@ -269,9 +269,7 @@ def build_sort(params, which):
         if which == "C09":
             return check_content(paths, tags, nums, lines, out)
         if which == "C10":
-            r = check_content(paths, tags, nums, lines, out)
-            if r:
-                return "C09-precondition: " + r
+            # the index is judged against the sn tags the output carries (C10's statement); whether those tags are right is C09
             return check_index(paths, tags, nums, out, wc, index, index_file)
         raise AssertionError(which)
 
